@@ -46,8 +46,11 @@ func genCandidate(r vlib.Rnd) *vlib.Project {
 		case 2:
 			return vlib.SingleFile(genOrFamily(r))
 		}
-		if vlib.Chance(r, 1, 3) {
+		switch r.Intn(4) {
+		case 0:
 			return vlib.SingleFile(genRPCFamily(r))
+		case 1:
+			return vlib.SingleFile(genRegexFamily(r))
 		}
 		return vlib.SingleFile(genTagSoup(r))
 	case 6:
@@ -225,6 +228,45 @@ func genAllOfFamily(r vlib.Rnd) []byte {
 	fmt.Fprintf(&sb, "POST /a/{id}\n  Request @t%d\n  200 @t%d\n  404 [@t%d]\n", r.Intn(n), n-1, r.Intn(n))
 	if vlib.Chance(r, 1, 3) {
 		fmt.Fprintf(&sb, "  Path\n    { // {allOf: \"@t%d\"}\n      \"id\": 1\n    }\n", r.Intn(n))
+	}
+	return []byte(sb.String())
+}
+
+// genRegexFamily: regex user types and inline regex bodies over ordinary and hostile patterns: matches of length zero,
+// patterns that match nothing at all (an empty character class), huge repetitions, unicode classes, invalid patterns.
+// The types are used from a jsight type, a response, an array body and a Path.
+var regexFamilyPatterns = []string{
+	`/a+/`, `/[a-z]{2,5}/`, `/\d{3}-\d{4}/`, `/(cat|dog)s?/`, `/a*/`, `/(ab)?/`, `/.*/`, `/\b/`, `/^$/`, `//`,
+	`/[^\x00-\x{10FFFF}]/`, `/[^\s\S]/`, `/a{0}/`, `/(?i)abc/`, `/\p{Greek}+/`, `/[[:alpha:]]+/`, `/a{2,1}/`, `/(/`, `/[a-/`,
+	`/x{1000}/`, `/.{0,3}$^/`, `/\z\A/`, `/[^\x00-\x{10FFFF}]?a/`, `/\//`, `/a|/`, `/(?:)/`, `/\x{10FFFF}/`, `/é+/`,
+}
+
+func genRegexFamily(r vlib.Rnd) []byte {
+	var sb strings.Builder
+	sb.WriteString("JSIGHT 0.3\n\n")
+	n := 1 + r.Intn(3)
+	for i := 0; i < n; i++ {
+		fmt.Fprintf(&sb, "TYPE @r%d regex\n  %s\n\n", i, vlib.Pick(r, regexFamilyPatterns))
+	}
+	if vlib.Chance(r, 1, 2) {
+		fmt.Fprintf(&sb, "TYPE @o\n  {\n    \"a\": @r%d,\n    \"b\": [@r%d]\n  }\n\n", r.Intn(n), r.Intn(n))
+	}
+	fmt.Fprintf(&sb, "GET /x/{id}\n")
+	if vlib.Chance(r, 1, 3) {
+		fmt.Fprintf(&sb, "  Path\n    {\n      \"id\": @r%d\n    }\n", r.Intn(n))
+	}
+	switch r.Intn(4) {
+	case 0:
+		fmt.Fprintf(&sb, "  200 @r%d\n", r.Intn(n))
+	case 1:
+		fmt.Fprintf(&sb, "  200 [@r%d]\n", r.Intn(n))
+	case 2:
+		fmt.Fprintf(&sb, "  200 regex\n    %s\n", vlib.Pick(r, regexFamilyPatterns))
+	default:
+		fmt.Fprintf(&sb, "  200 any\n")
+	}
+	if vlib.Chance(r, 1, 3) {
+		fmt.Fprintf(&sb, "POST /y\n  Request regex\n    %s\n  201 any\n", vlib.Pick(r, regexFamilyPatterns))
 	}
 	return []byte(sb.String())
 }
